@@ -1068,6 +1068,12 @@ static void run_equiv(Json& js, vh::Rng& rng, long budget, bool big) {
                 long double acc = 0, mag = 0;
                 for (int k = 0; k < nm; ++k) {
                     acc += xm[i - k];
+                }
+                // the running sum carries the rounding of everything added since it was last rebuilt (up to n samples before
+                // the window): the scale of the error is that of the last 2n samples, not of the window alone (the first
+                // version of this bound raised a false alarm in the thorough tier for n = 2 with two small values in the
+                // window after larger ones)
+                for (int k = 0; k < 2 * nm; ++k) {
                     mag += std::fabs((long double)xm[i - k]);
                 }
                 w2 = std::max(w2, std::fabs((double)(acc / nm - ym[i])) / (16.0 * nm * 2.22e-16 * (double)(mag / nm) + 1e-300));
